@@ -30,7 +30,7 @@ PROPS = {
         "outside": ["K > 4 patterns", "the matching! macro (C06)"],
     },
     "C02": {
-        "mirsym": ["builder_chains", "call_path", "eval_dyn", "eval_generic"],
+        "mirsym": ["builder_chains", "call_path", "eval_dyn", "eval_generic", "output_containers"],
         "bounds": {"quick": "segment lookup: S<=4 segments, repeat counts all values < 2^60 including 0, call index all 2^64; next_responder from an arbitrary counter value"},
         "assumptions": COMMON_KANI + COMMON_MIR + ["builder chains: IntoReturn / IntoReturnOnce / IntoReturner conversions are environment calls that record which conversion ran (their behaviour is decided under C12/C17)"],
         "outside": ["sum of repeat counts >= 2^63", "more than 4 segments"],
@@ -79,7 +79,7 @@ PROPS = {
         "outside": ["generic instantiation distinctness is a property of TypeId (trusted)", "message text"],
     },
     "C12": {
-        "mirsym": ["builder_chains", "eval_generic", "schedules"],
+        "mirsym": ["builder_chains", "eval_generic", "schedules", "output_containers"],
         "bounds": {"quick": "single-use value: all u8 payloads, 0..4 requests, then holder dropped (drop counter); repeatable value: 0..3 requests (clone + drop counters); composites (Option/Result/tuple/Vec/Poll over such leaves) in the external harness crate"},
         "assumptions": COMMON_KANI + ["sequential requests only: the race between threads is reduced to the atomic take() under the lock (MutexIsh::locked is an atomic block, see C10/C11 units)"],
         "outside": ["the builder refusing at compile time to quantify a non-Clone value (a fact about rustc's type checker)", "real threads racing for the value"],
@@ -97,8 +97,9 @@ PROPS = {
         "outside": ["patterns outside family G6 (the macro runs inside rustc: programs are covered per instantiation)", "3 or more top-level alternatives do not compile at all in this version (observed, not a soundness issue)"],
     },
     "C17": {
+        "mirsym": ["output_containers"],
         "bounds": {"quick": "return-type family (16 methods of one generated trait: owned, Option<owned>, &T, &str, &'static T, Option<&T>, Option<&str>, Result<&T,E>, Result<&[T],NonClone>, Vec<&T> with 0/1/2 elements, 2- and 3-tuples, Poll<Option<&T>>, Poll<Result<&T,Clone>>, Vec<Result<&T,NonClone>>, Option<Result<&T,E>>); output kind = the one the macro chose; every variant, all leaf values, two or three requests"},
-        "assumptions": COMMON_KANI + ["element counts are constants per harness (0, 1, 2): a Vec of symbolic length is an allocation of symbolic size"],
+        "assumptions": COMMON_KANI + COMMON_MIR + ["element counts are constants per harness (0, 1, 2): a Vec of symbolic length is an allocation of symbolic size"],
         "outside": ["return types outside the family; element counts above 3; nesting depth above 3"],
     },
     "C10": {
